@@ -30,7 +30,7 @@ RULE = (
 TRUSTED_BASE = [
     "hand model of generate_script_block (Model.lean) tied to the code by the correspondence stream of this run",
     "the harness tools/props/c15.py (generators, canonicalisation: result lines or exception class)",
-    "rendering of the lines into ATestRun_eljob.py is covered by C14's template model, not here",
+    "end-to-end stream: the real ATLAS pipeline (process_metadata, executor accumulation, generate_script_block, jinja) on the same block lists, judged by the Spec on the lines it inserts into ATestRun_eljob.py",
 ]
 ASSUMPTIONS = [
     "Python dicts iterate in insertion order (language guarantee since 3.7)",
@@ -60,6 +60,30 @@ def impl(blocks: List[Dict[str, Any]]) -> Dict[str, Any]:
     finally:
         signal.alarm(0)
         signal.signal(signal.SIGALRM, old)
+
+
+def impl_e2e(blocks: List[Dict[str, Any]]) -> Dict[str, Any]:
+    """The same blocks sent as add_job_script metadata on an ATLAS query, through the real pipeline
+    (process_metadata, the executor's accumulation, generate_script_block, jinja rendering)."""
+    import pipeline as P
+
+    src = "ds0"
+    for b in reversed(blocks):  # extract_metadata hands the OUTERMOST MetaData call over first
+        md = {"metadata_type": "add_job_script", "name": b["name"], "script": list(b["script"]), "depends_on": list(b["deps"])}
+        src = f"MetaData({src}, {md!r})"
+    src = f"Select({src}, lambda e: e.Jets('AntiKt4EMTopoJets').Count())"
+    r = P.translate_functional("atlas", src)
+    if not r["ok"]:
+        return {"err": r["error"]}
+    lines = r["job_option_additions"]
+    rendered = r["files"]["ATestRun_eljob.py"].split("\n")
+    try:
+        a = rendered.index("job.sampleHandler(sh)")
+        z = rendered.index("# Create the algorithm's configuration.")
+        region = [l for l in rendered[a + 1 : z] if l.strip() != ""]
+    except ValueError:
+        region = None
+    return {"ok": list(lines), "region": region}
 
 
 def canon_model(m: Dict[str, Any]) -> Dict[str, Any]:
@@ -177,10 +201,51 @@ def run(ctx):
         # the tie: model and implementation agree
         if canon_model(m) != r:
             ctx.disagreement("generate_script_block", {"blocks": blocks}, canon_model(m), r)
+    run_e2e(ctx)
     ctx.extra_cov["exhaustive"] = False
     ctx.extra_cov["exhaustive_part"] = "all block lists of <=2 blocks over 3 names x 4 scripts x dependency lists of <=2 entries from 4 names" + (
         "; <=3 blocks and <=4 blocks over reduced alphabets" if ctx.tier == "thorough" else ""
     )
+
+
+def run_e2e(ctx):
+    """End-to-end stream: the Spec on what the real pipeline inserts into ATestRun_eljob.py."""
+    n = 250 if ctx.tier == "quick" else 3000
+    meta = []
+    for _ in range(n):
+        b = random_case(ctx.rng)
+        # script lines that survive a rendering round trip unchanged (no blank lines)
+        meta.append((b, impl_e2e(b)))
+    reqs = []
+    for b, r in meta:
+        reqs.append({"op": "gen", "blocks": b})
+        reqs.append({"op": "spec", "blocks": b, "result": {"ok": r["ok"]} if "ok" in r else r})
+    ans = ctx.driver(DRIVER, reqs)
+    for i, (b, r) in enumerate(meta):
+        m, s = ans[2 * i], ans[2 * i + 1]
+        ctx.count("stream:end-to-end")
+        ctx.count("e2e:" + ("ok" if "ok" in r else r["err"]))
+        ctx.case(("e2e", b), nontrivial(b), {"blocks": b, "pipeline": r})
+        if "bad" in m or "bad" in s:
+            continue
+        if not s.get("holds", False):
+            ctx.violation(
+                key="e2e:" + repr(b),
+                what=f"the job-option lines the ATLAS pipeline inserts violate the block-order specification: {s.get('why')}",
+                case={"blocks": b, "via": "MetaData add_job_script on an ATLAS query"},
+                observed=r,
+                how="attach the blocks (last block innermost) as add_job_script MetaData to Select(ds, lambda e: e.Jets(..).Count()) and translate with atlas_xaod_executor; look at job_option_additions / ATestRun_eljob.py",
+            )
+            continue
+        if "ok" in r and r.get("region") is not None and r["region"] != r["ok"]:
+            ctx.violation(
+                key="e2e-render:" + repr(b),
+                what="the lines rendered into ATestRun_eljob.py differ from the generated script (dropped, duplicated or reordered by the template)",
+                case={"blocks": b},
+                observed=r,
+            )
+        if ("ok" in canon_model(m)) != ("ok" in r):
+            ctx.disagreement("pipeline accepts/refuses vs model", {"blocks": b}, canon_model(m), r)
 
 
 def search(ctx, broken):
